@@ -1,10 +1,16 @@
 #!/bin/sh
 # tools/runall.sh [quick|thorough] — run every registered check, print exit codes.
+# The quick tier writes the committed evidence files (/verif/evidence/<id>.json); a
+# thorough run writes its evidence to /tmp so that it does not replace them.
 cd /verif || exit 3
 tier="${1:-quick}"
 for p in $(python3 -c "import json;print(' '.join(c['property_id'] for c in json.load(open('MANIFEST.json'))['checks']))"); do
   s=$(date +%s)
-  timeout 5400 ./vcheck "$p" "$tier" -evidence "/tmp/ev_${tier}_$p.json" > "/tmp/runall_${tier}_$p.log" 2>&1
+  if [ "$tier" = quick ]; then
+    timeout 5400 ./vcheck "$p" "$tier" > "/tmp/runall_${tier}_$p.log" 2>&1
+  else
+    timeout 5400 ./vcheck "$p" "$tier" -evidence "/tmp/ev_${tier}_$p.json" > "/tmp/runall_${tier}_$p.log" 2>&1
+  fi
   rc=$?
   e=$(date +%s)
   echo "$p rc=$rc $(($e-$s))s $(grep -c '^VIOLATION' /tmp/runall_${tier}_$p.log) violations $(grep -c '^KNOWN-FINDING' /tmp/runall_${tier}_$p.log) known"
